@@ -47,6 +47,8 @@ def families_e3(prop, tier, seed):
     fams.append(('descriptions', description_family(tier)))
     fams.append(('mirrored within-word expressions', mirrored_subword_family()))
     fams.append(('runs of optional items', optional_runs_family(tier)))
+    fams.append(('within-word loops through the first character', within_word_loop_family()))
+    fams.append(('one definition inside a word and as a word', definition_in_and_out_of_word_family()))
     fams.append(('one within-word expression written with || and with |', same_subword_twice_shapes()))
     fams.append(('twins(seed=%d): a random subtree and a slightly varied copy' % seed, gram.twin_family(seed + 101, 300 if tier == 'quick' else 3000)))
     from . import regress
@@ -102,6 +104,48 @@ def optional_runs_family(tier):
     # inside a word
     out.append(gram.mk('cmd', S(Sub(L('-'), Opt(L('a')), Opt(L('b')), Opt(L('c')), L('=')), L('z'))))
     out.append(gram.mk('cmd', S(Sub(L('x'), Opt(L(':a')), Opt(L(':b')), Opt(L(':c')), Opt(L(':d'))), L('z'))))
+    return out
+
+
+def within_word_loop_family():
+    """within-word expressions whose automaton returns to its own start state (a repetition that begins at the first
+    character of the word), next to states that differ from the start state only in what may follow"""
+    L, S, A, Sub, Opt, Many, Ref = gram.Lit, gram.Seq, gram.Alt, gram.Sub, gram.Opt, gram.Many, gram.Ref
+    rw = A(L('r'), L('w'))
+    words = [
+        Sub(Many(Opt(Sub(rw, L(',')))), A(L('r'), L('w'), L('all')), Opt(L('!'))),
+        Sub(A(L('all'), Sub(Many(Opt(Sub(rw, L(',')))), A(L('r'), L('w'), L('all')))), Opt(L('!'))),
+        Sub(Many(A(L('a'), L('b'))), L('=')),
+        Sub(Many(Opt(Sub(L('k'), A(L('1'), L('2')), L(';')))), L('end')),
+        Sub(Many(Sub(A(L('x'), L('y')), Opt(L('-')))), Opt(L('.'))),
+        Sub(Opt(Many(A(L('+'), L('-')))), A(L('1'), L('2')), Opt(Many(A(L('+'), L('-'))))),
+    ]
+    out = []
+    for w in words:
+        out.append(gram.mk('cmd', w))
+        out.append(gram.mk('cmd', S(w, L('z'))))
+        out.append(gram.mk('cmd', S(L('-p'), A(w, L('none')), Opt(L('z')))))
+        out.append(gram.mk('cmd', Many(A(w, L('--')))))
+    out.append(gram.mk('cmd', A(S(words[0], L('x')), S(L('-f'), words[1], L('y')))))
+    return out
+
+
+def definition_in_and_out_of_word_family():
+    """a definition whose body has a within-word expression below another node, referenced inside a word and as a word of
+    its own (in both orders): the body is one shared subtree in the compiler"""
+    L, S, A, F, Sub, Opt, Ref = gram.Lit, gram.Seq, gram.Alt, gram.Fb, gram.Sub, gram.Opt, gram.Ref
+    out = []
+    bodies = [A(Sub(L('a'), Ref('Y')), L('b')), S(Sub(L('a'), Ref('Y'))), Opt(Sub(L('a'), Ref('Y'))), F(L('b'), Sub(L('a'), Ref('Y')))]
+    ydef = ('Y', None, A(L('y1'), L('y2')))
+    for body in bodies:
+        defs = [('X', None, body), ydef]
+        if body[0] in ('alt', 'fb', 'opt'):
+            inword = Sub(L('--opt='), Ref('X'))
+            out.append(gram.mk('cmd', A(inword, Ref('X')), defs))
+            out.append(gram.mk('cmd', A(Ref('X'), inword), defs))
+            out.append(gram.mk('cmd', S(inword, Ref('X'), L('end')), defs))
+            out.append({'command': 'cmd', 'variants': [S(L('s'), inword), S(L('t'), Ref('X'))], 'defs': defs})
+        out.append(gram.mk('cmd', A(S(L('p'), Ref('X')), S(L('q'), Ref('X'), L('z'))), defs))
     return out
 
 
@@ -769,7 +813,7 @@ def run_e2(prop, tier, seed, families, K, configs, allow_regions=(), max_paths=6
         'external commands are probes with fixed output (cgvprobe ID "$1" "$2")',
         'sort -nrk2,2 -rk3 and cut -f1 -d" " modelled on concrete data; LC_ALL=C',
         'outside the family "typed words containing * and ?" typed words contain no glob metacharacters; in that family an unquoted use of a typed word as a pattern is followed as the glob it is; [ and backslash never occur in typed symbolic words (they do in the concretely typed vocabulary)',
-        'a candidate identical to the text already typed is neither required nor forbidden',
+        'a candidate identical to the text already typed is neither required nor forbidden when it is the only candidate (it changes nothing for the user); next to other candidates it is compared like any other (its absence would let the shell complete past the typed value)',
         'the interpreter is validated against the real bash on the witnesses of sampled paths in every run',
     ]
     return rep
